@@ -82,6 +82,11 @@ def run_unit(repo, overlay_path, scratch, threads=8, rlimit=None, extra_args=(),
         res.update(status="undecided", reason="extraction failed: %r" % (e,))
         return res
     res["report"] = report
+    flagged = extract.lint_overlay(overlay_path)
+    res["lint"] = flagged
+    if flagged:
+        res.update(status="undecided", reason="overlay lint: an annotation contains executable text (%s: %s)" % flagged[0])
+        return res
     cmd = [VERUS, unit_file, "--triggers-mode", "silent", "--num-threads", str(threads), "--output-json", "--time",
            "--multiple-errors", "4"]
     if rlimit:
